@@ -455,6 +455,7 @@ def check_compact0(c, net, F, params, more_out):
                 pre = "q_" if cat == "link" else "q_o_"
                 cc.oblige("post", f"{cat} flows: one per {cat} in enumeration order", T.const(nout[k].n is net.n[cat] and vout[k].n is net.n[cat]), assume_after=False)
                 check_seg(cc, f"flow name of a {cat}", nout[k], j, [(pre, el.attrs["name"])], [None])
+                vout[k].cases(j)  # (the flow of this element is computed when the loop body runs at it)
                 fl = net.flows.get((cat, el.ref.uid, el.cls.name))
                 if fl is None:
                     cc.oblige("post", f"the flow of every {cat} is computed by its get_flow", T.FALSE, assume_after=False)
